@@ -264,7 +264,16 @@ func genUniverseText(c *fw.Ctx, sys string) string {
 				req = strings.NewReplacer("\n", "", "\t", "", "\x00", "").Replace(req)
 				typ := ""
 				if sys == "pypi" && c.Rng.Intn(3) == 0 {
-					m := semverops.Pick(c.Rng, `python_version < "3"`, `extra == "x"`, `os_name in "posix nt"`, `python_version in '3.9'`, `(`, `a and`, `python_version ~= "3.*"`, `sys_platform == "linux" or (`, `'3.9.6rc1' != python_version`)
+					lhs := semverops.Pick(c.Rng, "python_version", "python_full_version", "sys_platform", "os_name", "platform_machine", "implementation_name", "extra", "'abc'", "'1.0'", "'3.9.6rc1'")
+					op := semverops.Pick(c.Rng, "==", "!=", "<", "<=", ">", ">=", "~=", "===", "in", "not in")
+					rhs := semverops.Pick(c.Rng, "'1.0'", "'linux'", "'3.*'", "'x'", "python_version", "'3.9'", "''", "sys_platform")
+					m := lhs + " " + op + " " + rhs
+					if c.Rng.Intn(3) == 0 {
+						m = semverops.Pick(c.Rng, `python_version < "3"`, `extra == "x"`, `os_name in "posix nt"`, `python_version in '3.9'`, `(`, `a and`, `python_version ~= "3.*"`, `sys_platform == "linux" or (`, `'3.9.6rc1' != python_version`)
+					}
+					if c.Rng.Intn(5) == 0 {
+						m = m + semverops.Pick(c.Rng, " and ", " or ") + `python_version >= "3"`
+					}
 					typ = fmt.Sprintf("Environment %q|", m)
 				}
 				if sys == "maven" && c.Rng.Intn(4) == 0 {
